@@ -65,6 +65,23 @@ class Rec(object):
         return v
 
 
+FLOAT_EDGE = [0.0, 1.0 - 2.0 ** -53, 0.5, 2.0 ** -53]   # all are values random.random() can return
+
+
+class Seq(object):
+    """stand-in for `random` that replays given random() values (edge values of the float range)"""
+
+    def __init__(self, values, seed):
+        self.values = list(values)
+        self.rng = _random.Random(seed)
+
+    def random(self):
+        return self.values.pop(0) if self.values else self.rng.random()
+
+    def randint(self, a, b):
+        return self.rng.randint(a, b)
+
+
 @contextlib.contextmanager
 def patched(module, obj):
     old = module.random
@@ -120,6 +137,11 @@ def run_impl(c):
                 o["walk"] = call(lambda: walk_json(rutils.longest_dimension_first(tuple(o["vec"]["ok"]), start, w, h)))
             if k == "torus":
                 o["walk_ks"] = rec2.ks
+    elif k == "torus_float":
+        s, d, w, h = tuple(c["s"]), tuple(c["d"]), c["w"], c["h"]
+        o["len"] = call(lambda: int(geometry.shortest_torus_path_length(s, d, w, h)))
+        with patched(geometry, Seq([FLOAT_EDGE[i] for i in c["rs"]], c["seed"])):
+            o["vec"] = call(lambda: ints(geometry.shortest_torus_path(s, d, w, h)))
     elif k == "mesh":
         s, d = tuple(c["s"]), tuple(c["d"])
         o["len"] = call(lambda: int(geometry.shortest_mesh_path_length(s, d)))
@@ -265,6 +287,19 @@ def eval_cases(ctx, cases):
                 nontriv = n < nowrap or bool(o.get("vec_ts")) or n > 0
                 if n < nowrap:
                     ctx.tag("torus_wrap_shorter")
+        elif k == "torus_float":
+            ctx.tag("torus_float_edge")
+            if "err" in o["len"] or "err" in o["vec"]:
+                ctx.violation("exception-on-valid-input", "raised on a valid input: %r %r" % (o["len"], o["vec"]), c_desc)
+            else:
+                ask(L("spec_vector", s=c["s"], d=c["d"], v=o["vec"]["ok"], w=c["w"], h=c["h"], n=o["len"]["ok"]),
+                    spec_true("torus-tiebreak-float-rounding",
+                              "with random.random() returning %r (all legal outcomes) shortest_torus_path(%r, %r, %d, %d) "
+                              "= %r which does not have shortest_torus_path_length = %d hops (the key `distance + "
+                              "random.random()` rounds up to the next integer)" % (
+                                  [FLOAT_EDGE[i] for i in c["rs"]], c["s"], c["d"], c["w"], c["h"], o["vec"]["ok"],
+                                  o["len"]["ok"])))
+            nontriv = len(set(c["rs"])) > 1
         elif k == "ldf":
             v, start, w, h = c["v"], c["start"], c["w"], c["h"]
             ask(L("ldf", v=v, start=start, w=w, h=h, den=c["den"], ks=(o["walk_ks"] + [0, 0, 0])[:3]),
@@ -484,6 +519,20 @@ def gen_misc(ctx, n_min, n_lb, radii):
     return cases
 
 
+def gen_float_edge(ctx, sizes):
+    """every combination of the edge values {0, 1 - 2^-53, 0.5} for the four tie-break draws, every
+    destination from chip (0, 0)"""
+    import itertools
+    cases = []
+    for (w, h) in sizes:
+        for x in range(w):
+            for y in range(h):
+                for rs in itertools.product(range(3), repeat=4):
+                    cases.append({"kind": "torus_float", "w": w, "h": h, "s": [0, 0, 0], "d": [x, y, 0],
+                                  "rs": list(rs), "seed": ctx.rng.randrange(1 << 30)})
+    return cases
+
+
 def gen_malformed(ctx, n):
     rng = ctx.rng
     cases = []
@@ -514,6 +563,7 @@ def run(ctx):
         cases += gen_mesh(ctx, 6 * mult, 120, 7)
         cases += gen_ldf(ctx, 500 * mult)
         cases += gen_malformed(ctx, 60)
+        cases += gen_float_edge(ctx, [(3, 3), (4, 4), (2, 5), (5, 2), (1, 4), (6, 3)])
     else:
         allsizes = [(w, h) for w in range(1, 17) for h in range(1, 17)]
         cases = gen_misc(ctx, 5000, 5000, list(range(-1, 31)))
@@ -525,6 +575,7 @@ def run(ctx):
         cases += gen_mesh(ctx, 40, 400, 12)
         cases += gen_ldf(ctx, 20000)
         cases += gen_malformed(ctx, 500)
+        cases += gen_float_edge(ctx, [(w, h) for w in range(1, 7) for h in range(1, 7)])
         ctx.exhaustive = True
     for i in range(0, len(cases), 4000):
         eval_cases(ctx, cases[i:i + 4000])
